@@ -27,7 +27,7 @@ func (c12) Size(tier string) Size {
 	return Size{Batches: 4, Cases: 10}
 }
 func (c12) Rule() string {
-	return "binary built with -race (GORACE halt_on_error=0, log files counted, not the exit code). case = scenario: random schema of struct-backed and soft types (incl. soft types with nil maps, a relationship to a missing type, half a two-way relationship whose inverse was never declared) built once, then per goroutine a private list of operations from {NewURLFromRaw, NewRequest, UnmarshalDocument, UnmarshalPartialResource, GetType(n).New()+Set, MarshalDocument of a goroutine-private document made of resources of the shared types, a SoftCollection typed with what GetType returns, filled with resources of that type and marshaled, GetType, HasType, Check, Rels}. Phase 0 (cold start): several brand-new copies of the schema are FIRST used by up to 16 goroutines at once (each starts by creating a resource of every type), so lazily initialised shared state is initialised under contention. Phase A (sequential): every op once, result fingerprint recorded, deep reflective fingerprint of the schema (exported and unexported state) compared before/after EACH op. Phase B: G in {2,4,8,16} goroutines with GOMAXPROCS in {2,16}, released together, each running its list N times into private buffers (no shared monitor state). Phase C: every concurrent result equals its sequential baseline; schema fingerprint unchanged; race log files parsed and deduplicated by the pair of outermost library frames. Payloads carry a resource-level meta object; objects returned by NewURLFromRaw / NewRequest / Unmarshal* are kept by the goroutine and read again three calls later (a returned object belongs to its caller: a later call must not change it), sequentially and concurrently. Directed: a hand-assembled schema (type literals, one name used by an attribute and a relationship, a relationship without FromType) goes through every read-only operation but marshaling, fingerprint after each, then 8 goroutines on brand-new copies. Non-trivial = scenario with >= 2 goroutines and >= 3 distinct op kinds; distinct = scenario hash."
+	return "binary built with -race (GORACE halt_on_error=0, log files counted, not the exit code). case = scenario: random schema of struct-backed and soft types (incl. soft types with nil maps, a relationship to a missing type, half a two-way relationship whose inverse was never declared) built once, then per goroutine a private list of operations from {NewURLFromRaw, NewRequest, UnmarshalDocument, UnmarshalPartialResource, GetType(n).New()+Set, MarshalDocument of a goroutine-private document made of resources of the shared types, a SoftCollection typed with what GetType returns, filled with resources of that type and marshaled, GetType, HasType, Check, Rels}. Phase 0 (cold start): several brand-new copies of the schema are FIRST used by up to 16 goroutines at once (each starts by creating a resource of every type), so lazily initialised shared state is initialised under contention. Phase A (sequential): every op once, result fingerprint recorded, deep reflective fingerprint of the schema (exported and unexported state) compared before/after EACH op. Phase B: G in {2,4,8,16} goroutines with GOMAXPROCS in {2,16}, released together, each running its list N times into private buffers (no shared monitor state). Phase C: every concurrent result equals its sequential baseline; schema fingerprint unchanged; race log files parsed and deduplicated by the pair of outermost library frames. Payloads carry a resource-level meta object, and some relationship objects come without a data member (links / meta only) or with null / empty data; objects returned by NewURLFromRaw / NewRequest / Unmarshal* are kept by the goroutine and read again three calls later (a returned object belongs to its caller: a later call must not change it), sequentially and concurrently. Directed: a hand-assembled schema (type literals, one name used by an attribute and a relationship, a relationship without FromType) goes through every read-only operation but marshaling, fingerprint after each, then 8 goroutines on brand-new copies. Non-trivial = scenario with >= 2 goroutines and >= 3 distinct op kinds; distinct = scenario hash."
 }
 func (c12) Assumptions() []string {
 	return []string{"the race detector is happens-before based: it reports races between accesses the workload performs, whatever their timing, and nothing about accesses not performed",
@@ -452,7 +452,16 @@ func (m c12) genOps(r *RNG, s *SchemaSpec, n int) []c12op {
 				}
 			}
 			for _, rl := range t.Rels {
-				if r.Bool() {
+				if r.Chance(1, 6) {
+					// round 15: a relationship object without a data member (links / meta only), null or empty data
+					p.Rels[rl.Name] = r.Pick([]string{"", "null", "[]"})
+					if rl.ToOne && p.Rels[rl.Name] == "[]" || !rl.ToOne && p.Rels[rl.Name] == "null" {
+						p.Rels[rl.Name] = ""
+					}
+					if p.Rels[rl.Name] == "" {
+						p.Extra = true
+					}
+				} else if r.Bool() {
 					if rl.ToOne {
 						p.Rels[rl.Name] = fmt.Sprintf(`{"id":"x","type":%q}`, rl.ToType)
 					} else {
